@@ -27,12 +27,19 @@ class FaultPlane(object):
         self.calls = [0] * len(self.seams)
         self.in_oracle = 0
         self._orig = []
+        self.missing = []
 
     def install(self):
         sut.load()
         for idx, (modname, attr) in enumerate(self.seams):
-            mod = importlib.import_module(modname)
-            orig = getattr(mod, attr)
+            try:
+                mod = importlib.import_module(modname)
+                orig = getattr(mod, attr)
+            except (ImportError, AttributeError):
+                # the seam was renamed or moved by a refactoring: no injection at this site, the
+                # history-based clauses are unaffected
+                self.missing.append((modname, attr))
+                continue
             self._orig.append((mod, attr, orig))
             setattr(mod, attr, self._wrap(orig, idx))
 
